@@ -610,6 +610,25 @@ C07All(u) == UNION { { C07Pair(v, s, o, g, k) : s \in StrictOpts(v), o \in {"rou
                                               g \in {1000, 150000}, k \in {2, 3} } : v \in ParVariants }
 
 ---------------------------------------------------------------------------
+(***************************************************************************)
+(* C11 at the protocol entry points: a library user runs the SAME trace    *)
+(* from several goroutines at once (same target and port; Paris mode with  *)
+(* relaxed source checking, where the per-probe sequence number is the     *)
+(* only thing that tells the runs apart - so it is NOT pinned here).       *)
+(* Every run sees every ICMP error on the host; per-flow routers and       *)
+(* per-flow delays make another run's answers arrive first.                *)
+(***************************************************************************)
+C11Same(v, strict, n, stag, fd) ==
+    [variant |-> v, strict |-> strict, min |-> 1, max |-> 4, timeout_ms |-> 400, delay_ms |-> 20,
+     ipid_base |-> 41821, echo_base |-> 40000, isn32 |-> <<4660, 22136>>, sack_perm |-> TRUE, sack_ts |-> FALSE,
+     id |-> "C11/same/" \o v \o "/" \o (IF strict THEN "strict" ELSE "relaxed") \o "/" \o ToString(n) \o "/" \o ToString(stag) \o "/" \o ToString(fd[1]),
+     label |-> v \o "/" \o (IF strict THEN "strict" ELSE "relaxed") \o "/same_trace_from_several_goroutines",
+     per_flow |-> TRUE, flow_delay_us |-> fd, extra |-> [concurrent |-> n, stagger_us |-> stag],
+     path |-> PathOf([t \in 1..4 |-> IF t = 4 THEN <<Dest(v, 9000)>> ELSE <<TE(v, t, 6000 + 1000 * t)>>])]
+C11SameAll(u) == UNION { { C11Same(v, s, n, st, fd) : s \in StrictOpts(v), n \in {2, 3}, st \in {0, 1500}, fd \in {<<0, 0, 0>>, <<4000, 0, 2000>>} }
+                         : v \in {"tcp_paris", "udp4", "udp6", "icmp4", "tcp"} }
+
+---------------------------------------------------------------------------
 Cases == CASE Gen = "C01" -> C01All(0)
            [] Gen = "C02" -> C02All(NMax)
            [] Gen = "C04" -> C04All(0)
@@ -620,6 +639,7 @@ Cases == CASE Gen = "C01" -> C01All(0)
            [] Gen = "C09" -> C09All(0)
            [] Gen = "C10" -> C10All(0)
            [] Gen = "C07" -> C07All(0)
+           [] Gen = "C11" -> C11SameAll(0)
            [] OTHER -> {}
 
 Sampled == Gen \in {"C02"}      \* families that sample their parameter space themselves
